@@ -67,3 +67,10 @@ Proof.
   - exact (exec_bsbh ir m). - exact (exec_jmp ir m). - exact (exec_jsb ir m).
 Qed.
 Print Assumptions C05_unconditional_transfers.
+
+(* the four condition codes the branch predicates read are the source's flag getters (bodies translated on every run) *)
+From Dmd Require Import Model.Cpu Gen.GenFlags Proofs.FlagTie.
+Theorem C05_flag_getters_are_source_functions :
+  forall m, flag F_C m = g_c_flag m /\ flag F_V m = g_v_flag m /\ flag F_Z m = g_z_flag m /\ flag F_N m = g_n_flag m.
+Proof. exact getters_are_source. Qed.
+Print Assumptions C05_flag_getters_are_source_functions.
